@@ -33,7 +33,7 @@ Case vf_generate() {
     const ga::PSpec *p = c.spec.find(target == 0 ? c.spec.root : c.spec.sub, field);
     if (!p) return;
     ga::Set s; s.target = target; s.field = field; s.v = ga::gen_val(field, *p); s.by_symbol = vf::coin();
-    if (ga::kind_of(field) == ga::K_AINT || ga::kind_of(field) == ga::K_AFLOAT) s.idx = vf::pickn(ga::kind_of(field) == ga::K_AINT ? 8 : 4);
+    s.idx = ga::gen_idx(field);
     c.hist.insert(c.hist.begin() + vf::pickn((int)c.hist.size() + 1), s);
   };
   if (vf::chance(70)) add(0, ga::PRESET);
@@ -42,7 +42,7 @@ Case vf_generate() {
   if (vf::chance(50)) add(0, ga::EN);
   if (vf::chance(50)) add(0, ga::RT);
   // dependants set after their masters, so that the saved state has both at non-default values
-  for (auto &p : c.spec.root) if ((p.depends || p.depends_on >= 0) && vf::chance(70)) { ga::Set s; s.target = 0; s.field = p.field; s.v = ga::gen_val(p.field, p); if (ga::kind_of(p.field) == ga::K_AINT || ga::kind_of(p.field) == ga::K_AFLOAT) s.idx = vf::pickn(ga::kind_of(p.field) == ga::K_AINT ? 8 : 4); c.hist.push_back(s); }
+  for (auto &p : c.spec.root) if ((p.depends || p.depends_on >= 0) && vf::chance(70)) { ga::Set s; s.target = 0; s.field = p.field; s.v = ga::gen_val(p.field, p); s.idx = ga::gen_idx(p.field); c.hist.push_back(s); }
   c.drop = vf::chance(35) ? vf::pickn(8) : -1;
   for (int i = 0; i < 64; i++) c.shuffle.push_back(vf::pickn(1000));
   return c;
